@@ -169,7 +169,7 @@ theorem Part.marshal_shape (C : Codec) (p : Part) :
     Part.marshal C p = cs!"#EXT-X-PART:" ++ renderAttrs (Part.attrs C p) ++ ['\n'] := by
   obtain ⟨d, uri, ind, brl, brs, gap⟩ := p
   cases ind <;> cases brl <;> cases gap <;>
-    simp [Part.marshal, Part.attrs, optBr, renderAttrs, renderAttr]
+    simp [Part.marshal, Part.attrs, optBr, optList, renderAttrs, renderAttr]
 
 theorem Part.attrs_ok {C : Codec} (hC : C.Valid) {p : Part} (hw : wfPart p = true) : ∀ a ∈ Part.attrs C p, AttrOK a := by
   simp only [wfPart, Bool.and_eq_true] at hw
@@ -248,7 +248,7 @@ theorem ServerControl.marshal_shape (C : Codec) (t : ServerControl) :
     ServerControl.marshal C t = cs!"#EXT-X-SERVER-CONTROL:" ++ renderAttrs (ServerControl.attrs C t) ++ ['\n'] := by
   obtain ⟨cbr, phb, csu⟩ := t
   cases cbr <;> cases phb <;> cases csu <;>
-    simp [ServerControl.marshal, ServerControl.attrTexts, ServerControl.attrs, joinComma, renderAttrs, renderAttr]
+    simp [ServerControl.marshal, ServerControl.attrTexts, ServerControl.attrs, optList, joinComma, renderAttrs, renderAttr]
 
 theorem ServerControl.roundtrip {C : Codec} (hC : C.Valid) {t : ServerControl}
     (hw : (t.partHoldBack.all nnDur && t.canSkipUntil.all nnDur) = true) :
@@ -282,7 +282,7 @@ def MapTag.attrs (t : MapTag) : List (Str × AV) :=
 theorem MapTag.marshal_shape (t : MapTag) :
     MapTag.marshal t = cs!"#EXT-X-MAP:" ++ renderAttrs (MapTag.attrs t) ++ ['\n'] := by
   obtain ⟨uri, brl, brs⟩ := t
-  cases brl <;> simp [MapTag.marshal, MapTag.attrs, optBr, renderAttrs, renderAttr]
+  cases brl <;> simp [MapTag.marshal, MapTag.attrs, optBr, optList, renderAttrs, renderAttr]
 
 theorem MapTag.roundtrip {t : MapTag} (hw : (t.uri != [] && quotedOK t.uri && brOK t.brLen t.brStart) = true) :
     MapTag.unmarshal (renderAttrs (MapTag.attrs t)) = .ok t := by
@@ -340,7 +340,7 @@ theorem PreloadHint.marshal_shape (t : PreloadHint) :
     PreloadHint.marshal t = cs!"#EXT-X-PRELOAD-HINT:" ++ renderAttrs (PreloadHint.attrs t) ++ ['\n'] := by
   obtain ⟨uri, brs, brl⟩ := t
   by_cases h0 : brs = 0 <;> cases brl <;>
-    simp [PreloadHint.marshal, PreloadHint.attrs, renderAttrs, renderAttr, h0]
+    simp [PreloadHint.marshal, PreloadHint.attrs, optList, renderAttrs, renderAttr, h0]
 
 theorem PreloadHint.roundtrip {t : PreloadHint}
     (hw : (t.uri != [] && quotedOK t.uri && u64 t.brStart && t.brLen.all u64) = true) :
